@@ -248,13 +248,13 @@ def random_op(samples, folds, seed, tp):
 
 
 def weights_with_zeros(rng, n):
-    while True:
-        w = [0.0 if rng.chance(0.4) else rng.choice([1.0, 0.5, 2.0, 1e-300, 1e300, rng.uniform(0.0, 10.0)]) for _ in range(n)]
-        if max(w) > 0.0:
-            # keep the sum finite
-            if sum(1 for x in w if x == 1e300) > 1:
-                continue
-            return w
+    """non-negative weights, many of them zero, at least one positive, finite sum"""
+    w = [0.0 if rng.chance(0.4) else rng.choice([1.0, 0.5, 2.0, 1e-300, rng.uniform(0.0, 10.0)]) for _ in range(n)]
+    if rng.chance(0.1):
+        w[rng.below(n)] = 1e300
+    if max(w) <= 0.0:
+        w[rng.below(n)] = rng.choice([1.0, 1e-300, 7.25])
+    return w
 
 
 def gboost_op(rng, mode, n, ratio, calls):
@@ -436,15 +436,17 @@ def _sorted(xs):
     return all(a <= b for a, b in zip(xs, xs[1:]))
 
 
+_DOM = []
+
+
 def _in_domain(folds, seed, tp=None):
-    d = domains()
+    if not _DOM:
+        _DOM.append(domains())
+    d = _DOM[0]
     ok = d["folds"][0] <= folds <= d["folds"][2] and d["seed"][0] <= seed <= d["seed"][2]
     if tp is not None:
         ok = ok and d["trainPer"][0] <= tp <= d["trainPer"][2]
     return ok
-
-
-_DOM = None
 
 
 def _pair_check(samples, sset, train, valid):
